@@ -123,9 +123,26 @@ Inductive bind_t :=
 | BFd (n : option Z)                      (* None: int() raised ValueError *)
 | BInet (v6 : bool) (host : string) (port : Z).
 
+(* s.endswith(c) / s[:-1] *)
+Fixpoint last_is (c : ascii) (s : string) : bool :=
+  match s with
+  | EmptyString => false
+  | String a EmptyString => Ascii.eqb a c
+  | String _ r => last_is c r
+  end.
+Fixpoint drop_last (s : string) : string :=
+  match s with
+  | EmptyString => EmptyString
+  | String _ EmptyString => EmptyString
+  | String a r => String a (drop_last r)
+  end.
+
 Definition parse_bind (s : string) : bind_t :=
   if String.prefix "unix:" s then BUnix (drop 5 s)
   else if String.prefix "fd://" s then BFd (int_of_string (drop 5 s))
+  else if String.prefix "[" s && last_is "]" s then
+    (* a bare host in brackets (an IPv6 address): the default port *)
+    let h := str_remove "]" (str_remove "[" s) in BInet (contains ":" h) h 8000%Z
   else
     let b := str_remove "]" (str_remove "[" s) in
     let hp := match rsplit1 ":" b with
